@@ -119,3 +119,19 @@ package routingtable
 //@   acquires 91
 //@   locks C25
 //@   guards C26
+
+// The trie below the table lock: only the locks of the routes are taken.
+//@ contract (*RoutingTable).removePaths, (*RoutingTable).removePath, (*RoutingTable).addPath
+//@   props C25 C26
+//@   nosafety
+//@   requires verif_wheld(&rt.mu)
+//@   acquires 81
+//@   locks C25
+//@   guards C26
+
+//@ contract (*node).addPath, (*node).removePath
+//@   props C25
+//@   nosafety
+//@   nilrecv
+//@   acquires 95
+//@   locks C25
